@@ -465,9 +465,9 @@ def run(ctx: Ctx) -> Result:
     COUNTS.collect(ctx.scratch)
     st = explore_all(
         ctx, [make_factory(s) for s in specs],
-        max_states=ctx.pick(6000, 60000), max_seconds=ctx.pick(110, 1500))
+        max_states=ctx.pick(6000, 80000), max_seconds=ctx.pick(400, 3000))
     counts = COUNTS.collect(ctx.scratch)
-    if not st.error and not st.violations:
+    if not st.error and not st.violations and not st.capped:
         need = ('releases', 'held_entries_skipped', 'states_at_limit',
                 'states_over_limit_by_manual_trigger',
                 'releases_filling_last_slot', 'dequeued_not_by_release')
